@@ -860,6 +860,10 @@ fn gen_case(batch: &str, index: u64, seed: u64) -> Case {
             if kernel.kind == "poly" && pr.chance(0.3) {
                 kernel.coef0 = 1.0; // keep the base positive for non-integer-safe powf
             }
+            if kernel.kind == "poly" && pr.chance(0.4) {
+                // every small integer degree, including the constant kernel (degree 0)
+                kernel.degree = *pr.pick(&[0.0, 0.0, 1.0, 2.0, 3.0, 4.0, 5.0]);
+            }
             Case { model: "kernel".into(), x, y: vec![], kernel, c: 1.0, tol: 1e-3, epoch: 1, eps: 0.0, f32m, queries: vec![], budget: 0, tape: TapeSpec::prng(tape_seed), kind: "kernel-closed-form".into() }
         }
         "svr-hard" | "svr-hard-tight" => {
